@@ -380,6 +380,11 @@ func c05Scenarios(thorough bool) []*scenario {
 	add(syncConfig{length: 2, start: 1, script: map[string][]string{"a1": {"drop"}, "a2": {"none"}}}, 0)
 	// events during synchronisation
 	add(syncConfig{length: 2, start: 1, events: []string{"trigger"}}, 0, 1)
+	// two triggers inside one round (e.g. two new headers while a request is pending): the restart
+	// flag is already set when the second one arrives
+	add(syncConfig{length: 2, start: 1, events: []string{"trigger", "trigger"}}, 0)
+	add(syncConfig{length: 2, start: 1, script: map[string][]string{"a1": {"drop"}}, events: []string{"trigger", "trigger"}}, 0)
+	add(syncConfig{length: 2, start: 1, events: []string{"extend", "trigger"}}, 0)
 	add(syncConfig{length: 2, start: 1, events: []string{"extend"}}, 0, 1)
 	add(syncConfig{length: 2, start: 1, events: []string{"reorg"}, forkAt: 1, forkLen: 1}, 0, 1)
 	add(syncConfig{length: 3, start: 1, events: []string{"reorg"}, forkAt: 1, forkLen: 2}, 0)
